@@ -6,21 +6,14 @@ import (
 
 	"filippo.io/edwards25519"
 	"filippo.io/edwards25519/field"
+	"verifharness/ctops"
 	"verifharness/gen"
 	"verifharness/raw"
 	"verifharness/ref"
 )
 
 // ctInputs is one secret assignment for a constant-time entry point.
-type ctInputs struct {
-	pts   []*edwards25519.Point
-	scs   []*edwards25519.Scalar
-	fes   []*field.Element
-	bytes []byte
-	cond  int
-	u32   uint32
-	class string
-}
+type ctInputs = ctops.Inputs
 
 // ctOp is a constant-time entry point: gen draws assignment number k (k = 0 is the
 // reference assignment; higher k walk the adversarial classes, then uniform).
@@ -114,7 +107,7 @@ func hasZeroXLimbs(in *ctInputs) bool {
 	if !raw.PointOK() {
 		return false
 	}
-	for _, p := range in.pts {
+	for _, p := range in.Pts {
 		l := raw.PointLimbs(p)
 		if l[0] == [5]uint64{} {
 			return true
@@ -126,8 +119,8 @@ func hasZeroXLimbs(in *ctInputs) bool {
 func pointOp1(name string, f func(v, p *edwards25519.Point)) ctOp {
 	return ctOp{name: name, gen: func(r *gen.Rand, k int) ctInputs {
 		p, c := ctPoint(r, k)
-		return ctInputs{pts: []*edwards25519.Point{p}, class: c}
-	}, run: func(in *ctInputs) { f(new(edwards25519.Point), in.pts[0]) }}
+		return ctInputs{Pts: []*edwards25519.Point{p}, Class: c}
+	}, run: func(in *ctInputs) { f(in.OutP, in.Pts[0]) }}
 }
 
 func pointOp2(name string, f func(v, p, q *edwards25519.Point)) ctOp {
@@ -137,8 +130,8 @@ func pointOp2(name string, f func(v, p, q *edwards25519.Point)) ctOp {
 		if k%6 == 5 { // equal operands
 			q, c2 = new(edwards25519.Point).Set(p), "same"
 		}
-		return ctInputs{pts: []*edwards25519.Point{p, q}, class: c1 + "," + c2}
-	}, run: func(in *ctInputs) { f(new(edwards25519.Point), in.pts[0], in.pts[1]) }}
+		return ctInputs{Pts: []*edwards25519.Point{p, q}, Class: c1 + "," + c2}
+	}, run: func(in *ctInputs) { f(in.OutP, in.Pts[0], in.Pts[1]) }}
 }
 
 func scalarOpN(name string, n int, f func(v *edwards25519.Scalar, s []*edwards25519.Scalar)) ctOp {
@@ -147,35 +140,35 @@ func scalarOpN(name string, n int, f func(v *edwards25519.Scalar, s []*edwards25
 		for j := 0; j < n; j++ {
 			s, c := ctScalar(r, (k+j*5)%97)
 			if j > 0 && k%7 == 6 {
-				s, c = new(edwards25519.Scalar).Set(in.scs[0]), "same"
+				s, c = new(edwards25519.Scalar).Set(in.Scs[0]), "same"
 			}
-			in.scs = append(in.scs, s)
-			in.class += c + ","
+			in.Scs = append(in.Scs, s)
+			in.Class += c + ","
 		}
 		return in
-	}, run: func(in *ctInputs) { f(new(edwards25519.Scalar), in.scs) }}
+	}, run: func(in *ctInputs) { f(in.OutS, in.Scs) }}
 }
 
 func feOpN(name string, n int, f func(v *field.Element, e []*field.Element, in *ctInputs)) ctOp {
 	return ctOp{name: name, gen: func(r *gen.Rand, k int) ctInputs {
-		in := ctInputs{cond: k % 2, u32: uint32(r.U64())}
+		in := ctInputs{Cond: k % 2, U32: uint32(r.U64())}
 		if k%4 == 1 {
-			in.u32 = 0
+			in.U32 = 0
 		}
 		if k%4 == 2 {
-			in.u32 = 0xffffffff
+			in.U32 = 0xffffffff
 		}
 		for j := 0; j < n; j++ {
 			e, c := ctFe(r, (k+j*3)%61)
 			if j > 0 && k%7 == 6 {
-				e, c = new(field.Element).Set(in.fes[0]), "same"
+				e, c = new(field.Element).Set(in.Fes[0]), "same"
 			}
-			in.fes = append(in.fes, e)
-			in.class += c + ","
+			in.Fes = append(in.Fes, e)
+			in.Class += c + ","
 		}
-		in.class += fmt.Sprintf("cond=%d", in.cond)
+		in.Class += fmt.Sprintf("cond=%d", in.Cond)
 		return in
-	}, run: func(in *ctInputs) { f(new(field.Element), in.fes, in) }}
+	}, run: func(in *ctInputs) { f(in.OutE, in.Fes, in) }}
 }
 
 func multiOp(n int) ctOp {
@@ -184,26 +177,26 @@ func multiOp(n int) ctOp {
 		for j := 0; j < n; j++ {
 			s, c1 := ctScalar(r, (k+j)%97)
 			p, c2 := ctPoint(r, (k+3*j)%53)
-			in.scs = append(in.scs, s)
-			in.pts = append(in.pts, p)
-			in.class += c1 + "*" + c2 + " "
+			in.Scs = append(in.Scs, s)
+			in.Pts = append(in.Pts, p)
+			in.Class += c1 + "*" + c2 + " "
 		}
 		return in
-	}, run: func(in *ctInputs) { new(edwards25519.Point).MultiScalarMult(in.scs, in.pts) }}
+	}, run: func(in *ctInputs) { in.OutP.MultiScalarMult(in.Scs, in.Pts) }}
 }
 
 // CTOps is the list of constant-time entry points driven by the leakage monitors.
-func CTOps() []ctOp {
+func ctGenTable() []ctOp {
 	ops := []ctOp{
 		{name: "Point.ScalarMult", gen: func(r *gen.Rand, k int) ctInputs {
 			s, c1 := ctScalar(r, k)
 			p, c2 := ctPoint(r, (k*7)%53)
-			return ctInputs{scs: []*edwards25519.Scalar{s}, pts: []*edwards25519.Point{p}, class: c1 + "," + c2}
-		}, run: func(in *ctInputs) { new(edwards25519.Point).ScalarMult(in.scs[0], in.pts[0]) }},
+			return ctInputs{Scs: []*edwards25519.Scalar{s}, Pts: []*edwards25519.Point{p}, Class: c1 + "," + c2}
+		}, run: func(in *ctInputs) { in.OutP.ScalarMult(in.Scs[0], in.Pts[0]) }},
 		{name: "Point.ScalarBaseMult", gen: func(r *gen.Rand, k int) ctInputs {
 			s, c1 := ctScalar(r, k)
-			return ctInputs{scs: []*edwards25519.Scalar{s}, class: c1}
-		}, run: func(in *ctInputs) { new(edwards25519.Point).ScalarBaseMult(in.scs[0]) }},
+			return ctInputs{Scs: []*edwards25519.Scalar{s}, Class: c1}
+		}, run: func(in *ctInputs) { in.OutP.ScalarBaseMult(in.Scs[0]) }},
 		multiOp(0), multiOp(1), multiOp(2), multiOp(3),
 		pointOp2("Point.Add", func(v, p, q *edwards25519.Point) { v.Add(p, q) }),
 		pointOp2("Point.Subtract", func(v, p, q *edwards25519.Point) { v.Subtract(p, q) }),
@@ -233,14 +226,14 @@ func CTOps() []ctOp {
 					enc, cl = nb, cl+"-noncanonical"
 				}
 			}
-			return ctInputs{bytes: enc, class: "encoding:" + cl}
-		}, run: func(in *ctInputs) { new(edwards25519.Point).SetBytes(in.bytes) }},
+			return ctInputs{Bytes: enc, Class: "encoding:" + cl}
+		}, run: func(in *ctInputs) { in.OutP.SetBytes(in.Bytes) }},
 		{name: "Point.SetExtendedCoordinates(valid)", gen: func(r *gen.Rand, k int) ctInputs {
 			p, c := ctPoint(r, k)
 			X, Y, Z, T := p.ExtendedCoordinates()
-			return ctInputs{fes: []*field.Element{X, Y, Z, T}, class: c}
+			return ctInputs{Fes: []*field.Element{X, Y, Z, T}, Class: c}
 		}, run: func(in *ctInputs) {
-			new(edwards25519.Point).SetExtendedCoordinates(in.fes[0], in.fes[1], in.fes[2], in.fes[3])
+			in.OutP.SetExtendedCoordinates(in.Fes[0], in.Fes[1], in.Fes[2], in.Fes[3])
 		}},
 		scalarOpN("Scalar.Add", 2, func(v *edwards25519.Scalar, s []*edwards25519.Scalar) { v.Add(s[0], s[1]) }),
 		scalarOpN("Scalar.Subtract", 2, func(v *edwards25519.Scalar, s []*edwards25519.Scalar) { v.Subtract(s[0], s[1]) }),
@@ -253,8 +246,8 @@ func CTOps() []ctOp {
 		scalarOpN("Scalar.Set", 1, func(v *edwards25519.Scalar, s []*edwards25519.Scalar) { v.Set(s[0]) }),
 		{name: "Scalar.SetCanonicalBytes(valid)", gen: func(r *gen.Rand, k int) ctInputs {
 			s, c := ctScalar(r, k)
-			return ctInputs{bytes: s.Bytes(), class: c}
-		}, run: func(in *ctInputs) { new(edwards25519.Scalar).SetCanonicalBytes(in.bytes) }},
+			return ctInputs{Bytes: s.Bytes(), Class: c}
+		}, run: func(in *ctInputs) { in.OutS.SetCanonicalBytes(in.Bytes) }},
 		{name: "Scalar.SetUniformBytes", gen: func(r *gen.Rand, k int) ctInputs {
 			b := r.Bytes(64)
 			cl := "uniform"
@@ -270,8 +263,8 @@ func CTOps() []ctOp {
 				copy(b, make([]byte, 43))
 				cl = "low-zero"
 			}
-			return ctInputs{bytes: b, class: "wide:" + cl}
-		}, run: func(in *ctInputs) { new(edwards25519.Scalar).SetUniformBytes(in.bytes) }},
+			return ctInputs{Bytes: b, Class: "wide:" + cl}
+		}, run: func(in *ctInputs) { in.OutS.SetUniformBytes(in.Bytes) }},
 		{name: "Scalar.SetBytesWithClamping", gen: func(r *gen.Rand, k int) ctInputs {
 			b := r.Bytes(32)
 			cl := "uniform"
@@ -284,14 +277,14 @@ func CTOps() []ctOp {
 				}
 				cl = "ones"
 			}
-			return ctInputs{bytes: b, class: "clamp:" + cl}
-		}, run: func(in *ctInputs) { new(edwards25519.Scalar).SetBytesWithClamping(in.bytes) }},
+			return ctInputs{Bytes: b, Class: "clamp:" + cl}
+		}, run: func(in *ctInputs) { in.OutS.SetBytesWithClamping(in.Bytes) }},
 		feOpN("Element.Add", 2, func(v *field.Element, e []*field.Element, in *ctInputs) { v.Add(e[0], e[1]) }),
 		feOpN("Element.Subtract", 2, func(v *field.Element, e []*field.Element, in *ctInputs) { v.Subtract(e[0], e[1]) }),
 		feOpN("Element.Negate", 1, func(v *field.Element, e []*field.Element, in *ctInputs) { v.Negate(e[0]) }),
 		feOpN("Element.Multiply", 2, func(v *field.Element, e []*field.Element, in *ctInputs) { v.Multiply(e[0], e[1]) }),
 		feOpN("Element.Square", 1, func(v *field.Element, e []*field.Element, in *ctInputs) { v.Square(e[0]) }),
-		feOpN("Element.Mult32", 1, func(v *field.Element, e []*field.Element, in *ctInputs) { v.Mult32(e[0], in.u32) }),
+		feOpN("Element.Mult32", 1, func(v *field.Element, e []*field.Element, in *ctInputs) { v.Mult32(e[0], in.U32) }),
 		feOpN("Element.Invert", 1, func(v *field.Element, e []*field.Element, in *ctInputs) { v.Invert(e[0]) }),
 		feOpN("Element.Pow22523", 1, func(v *field.Element, e []*field.Element, in *ctInputs) { v.Pow22523(e[0]) }),
 		feOpN("Element.Absolute", 1, func(v *field.Element, e []*field.Element, in *ctInputs) { v.Absolute(e[0]) }),
@@ -299,10 +292,10 @@ func CTOps() []ctOp {
 		feOpN("Element.Equal", 2, func(v *field.Element, e []*field.Element, in *ctInputs) { e[0].Equal(e[1]) }),
 		feOpN("Element.IsNegative", 1, func(v *field.Element, e []*field.Element, in *ctInputs) { e[0].IsNegative() }),
 		feOpN("Element.Bytes", 1, func(v *field.Element, e []*field.Element, in *ctInputs) { e[0].Bytes() }),
-		feOpN("Element.Select", 2, func(v *field.Element, e []*field.Element, in *ctInputs) { v.Select(e[0], e[1], in.cond) }),
+		feOpN("Element.Select", 2, func(v *field.Element, e []*field.Element, in *ctInputs) { v.Select(e[0], e[1], in.Cond) }),
 		feOpN("Element.Swap", 2, func(v *field.Element, e []*field.Element, in *ctInputs) {
-			a, b := new(field.Element).Set(e[0]), new(field.Element).Set(e[1])
-			a.Swap(b, in.cond)
+			a, b := in.OutE.Set(e[0]), in.OutF.Set(e[1])
+			a.Swap(b, in.Cond)
 		}),
 		feOpN("Element.Set", 1, func(v *field.Element, e []*field.Element, in *ctInputs) { v.Set(e[0]) }),
 		{name: "Element.SetBytes", gen: func(r *gen.Rand, k int) ctInputs {
@@ -315,8 +308,8 @@ func CTOps() []ctOp {
 					b[i] = 0xff
 				}
 			}
-			return ctInputs{bytes: b, class: "bytes"}
-		}, run: func(in *ctInputs) { new(field.Element).SetBytes(in.bytes) }},
+			return ctInputs{Bytes: b, Class: "bytes"}
+		}, run: func(in *ctInputs) { in.OutE.SetBytes(in.Bytes) }},
 		{name: "Element.SetWideBytes", gen: func(r *gen.Rand, k int) ctInputs {
 			b := r.Bytes(64)
 			if k == 1 {
@@ -327,8 +320,37 @@ func CTOps() []ctOp {
 					b[i] = 0xff
 				}
 			}
-			return ctInputs{bytes: b, class: "bytes"}
-		}, run: func(in *ctInputs) { new(field.Element).SetWideBytes(in.bytes) }},
+			return ctInputs{Bytes: b, Class: "bytes"}
+		}, run: func(in *ctInputs) { in.OutE.SetWideBytes(in.Bytes) }},
 	}
 	return ops
+}
+
+
+// CTOps zips the generators above with the run-only table of package ctops (by name, in
+// ctops' order); a name without a generator is a harness bug and panics at start-up.
+func CTOps() []ctOp {
+	gens := map[string]func(r *gen.Rand, k int) ctInputs{}
+	for _, o := range ctGenTable() {
+		gens[o.name] = o.gen
+	}
+	var out []ctOp
+	for _, o := range ctops.Ops() {
+		g, ok := gens[o.Name]
+		if !ok {
+			panic("mon: no generator for entry point " + o.Name)
+		}
+		run := o.Run
+		out = append(out, ctOp{name: o.Name, gen: g, run: func(in *ctInputs) { run(in) }})
+	}
+	return out
+}
+
+// CTOpNames lists the entry points.
+func CTOpNames() []string {
+	var n []string
+	for _, o := range ctops.Ops() {
+		n = append(n, o.Name)
+	}
+	return n
 }
